@@ -254,6 +254,40 @@ func c19(c *Ctx) (*report.Result, error) {
 			}
 		}
 		res.Check(okHTTP, "O19.3", "fetchCACert: plain http:// is refused", fnPos(c.Prog, f), "ok", "a CA bundle may be fetched over unauthenticated http")
+		// O19.10: no pool, no success
+		res.RuleDoc["O19.10"] = "no CA bundle is never a success: fetchCACert returns a nil pool only together with an error (a fresh one, or one tested non-nil) - crypto/tls reads a nil ClientCAs / RootCAs as 'the host's root store', so a nil pool with a nil error turns 'only the configured CA' into 'any CA this machine trusts' for every caller that installs the result, the server among them"
+		nNil := 0
+		for _, b := range f.Blocks {
+			if b == f.Recover {
+				continue
+			}
+			ret, isR := b.Instrs[len(b.Instrs)-1].(*ssa.Return)
+			if !isR || !flow.IsNilConst(flow.Ret(ret)[0]) {
+				continue
+			}
+			nNil++
+			ev := flow.Ret(ret)[1]
+			okErr := false
+			if call, isC := ev.(*ssa.Call); isC {
+				if sc := flow.StaticCallee(&call.Call); sc != nil && sc.Pkg != nil && (sc.Pkg.Pkg.Path() == "errors" && sc.Name() == "New" || sc.Pkg.Pkg.Path() == "fmt" && sc.Name() == "Errorf") {
+					okErr = true
+				}
+			}
+			if !okErr && !flow.IsNilConst(ev) {
+				for _, g := range flow.NormGuards(flow.Guards(b)) {
+					if bo, isB := g.Cond.(*ssa.BinOp); isB {
+						x, y := flow.ResolveLoad(bo.X), flow.ResolveLoad(bo.Y)
+						if (x == ev && flow.IsNilConst(y) || y == ev && flow.IsNilConst(x)) && (bo.Op == token.NEQ && g.Side || bo.Op == token.EQL && !g.Side) {
+							okErr = true
+						}
+					}
+				}
+			}
+			res.Check(okErr, "O19.10", fmt.Sprintf("fetchCACert: the nil pool returned in block %d comes with an error", b.Index), instrPos(c.Prog, ret), "error freshly made or tested non-nil", "fetchCACert can return (nil, nil): GetServerTLSConfig installs the result as ClientCAs next to RequireAndVerifyClientCert, and crypto/tls verifies client certificates against the host's root store when ClientCAs is nil - a peer with a certificate from any publicly trusted CA is admitted")
+		}
+		if nNil < 3 {
+			res.Undec("O19.10", "fetchCACert: failure returns", fnPos(c.Prog, f), fmt.Sprintf("%d returns with a nil pool, at least 3 confirmed by hand", nNil))
+		}
 	}
 	if f := resolve(c, res, "O19.3", anchor{"encryption", "", "validateHasCA"}); f != nil {
 		ok := false
